@@ -206,6 +206,10 @@ class ClientWebSocketResponse(Generic[_DecodeText]):
         self._ping_task = None
 
     def _pong_not_received(self) -> None:
+        if self._need_heartbeat_reset:
+            # Data (e.g. the PONG) was read in this very loop iteration; the
+            # pending _flush_heartbeat_reset() re-arms the heartbeat.
+            return
         if self._reader._protocol._reading_paused:
             # We are the ones not reading (flow control): the PONG may
             # wait in the socket, no verdict until reading resumes.
